@@ -4,10 +4,12 @@
    Everything is stated for an arbitrary field (`FOps F` with `FLaws`) and arbitrary sizes. *)
 From Coq Require Import List Arith ZArith.
 From VBase Require Import FieldOps.
-From VModel Require Import Composition.
+From VBase Require Import MachInt.
+From VModel Require Import Composition CompositionLagrange.
+From VModel Require Enforce EnforceLagrange.
 From VModel Require FFT Stark.
 From VProofs Require FFTSpec FFTEval FFTOffset FFTSegments StarkPoly.
-From VProofs Require Import ZpLaws CompositionBase CompositionIndex CompositionVerifier CompositionTable CompositionFFT CompositionValid CompositionExamples.
+From VProofs Require Import ZpLaws CompositionBase CompositionIndex CompositionVerifier CompositionTable CompositionFFT CompositionValid CompositionLagrange CompositionLagrangeTable CompositionExamples.
 Import ListNotations.
 Local Open Scope nat_scope.
 
@@ -451,6 +453,96 @@ Proof.
 Qed.
 Print Assumptions C17_group_merge_value_preserving.
 
+(* ---- Lagrange-kernel constraints (round 6).  Model: coq/Model/CompositionLagrange.v (prover/src/constraints/evaluator/
+        lagrange.rs: s_precomputes, the flattened batch-inverted divisor vector with its slice index table,
+        get_inverse_divisor_eval's `row % slice.len()`, the Lagrange frame read from the trace LDE, the boundary divisor
+        inverses, the accumulation) on top of C16's air-level functions (coq/Model/EnforceLagrange.v).
+        lag_def(x) = sum_{idx < v} coef_idx * (r[v-1-idx] * L(x) - (1 - r[v-1-idx]) * L(g^(2^(v-1-idx)) x)) / (x^(2^idx) - 1)
+                     + (L(x) - prod_i (1 - r_i)) * cc_b / (x - 1)      (idx = k - 1; divisions by finv: x / 0 = 0, as in the code)
+        THEOREM: the vector evaluate_constraints adds to the combined column is lag_def at EVERY point x_i = w_ce^i * offset of
+        the ce domain; hypotheses: root-of-unity relations, the Lagrange column of the trace LDE holds the column polynomial on
+        the LDE coset (C09), v coefficients / random elements, 2^idx divides |ce| for idx < v (n = 2^v). *)
+Theorem C17_lagrange_row_spec :
+  forall (F : Type) (O0 : FOps F),
+         FLaws O0 ->
+         forall (n ceb ldeb r' : nat) (offset : F) (rou : nat -> F) (wlde : F),
+         n <> 0 ->
+         ceb <> 0 ->
+         r' <> 0 ->
+         ldeb = ceb * r' ->
+         cpow O0 wlde (lde_size n ldeb) = fone O0 ->
+         cpow O0 wlde r' = wce n ceb rou ->
+         cpow O0 wlde ldeb = gtrace n rou ->
+         forall (v : nat) (Lp lde_lag : list F),
+         length lde_lag = lde_size n ldeb ->
+         (forall j : nat,
+          j < lde_size n ldeb -> nth_error lde_lag j = Some (peval O0 Lp (fmul O0 (cpow O0 wlde j) offset))) ->
+         forall (t : EnforceLagrange.LagTC) (rr : list F) (lb : F),
+         length (EnforceLagrange.l_coef t) = v ->
+         length rr = v ->
+         length (EnforceLagrange.l_div t) = v ->
+         v < 64 ->
+         (forall idx : nat, idx < v -> 2 ^ idx * (ce_size n ceb / 2 ^ idx) = ce_size n ceb) ->
+         lagrange_evaluate O0 n ceb ldeb offset rou v lde_lag t rr lb =
+         Some (map (fun i : nat => lag_def O0 n rou v Lp t rr lb (ce_x O0 n ceb offset rou i)) (seq 0 (ce_size n ceb))).
+Proof. exact @lagrange_evaluate_spec. Qed.
+Print Assumptions C17_lagrange_row_spec.
+
+(* the verifier's Lagrange section (evaluate_and_combine + boundary.evaluate_at on ANY frame c of v + 1 values, any x) is the
+   same expression: with c = the OOD Lagrange frame L(z), L(gz), L(g^2 z), .. it is lag_def(z) *)
+Theorem C17_verifier_lagrange_agrees :
+  forall (F : Type) (O0 : FOps F),
+         FLaws O0 ->
+         forall n ceb ldeb r' : nat,
+         n <> 0 ->
+         ceb <> 0 ->
+         r' <> 0 ->
+         ldeb = ceb * r' ->
+         forall (v : nat) (lde_lag : list F),
+         length lde_lag = lde_size n ldeb ->
+         forall (t : EnforceLagrange.LagTC) (rr : list F) (lb : F),
+         length (EnforceLagrange.l_coef t) = v ->
+         length rr = v ->
+         length (EnforceLagrange.l_div t) = v ->
+         (forall idx : nat,
+          idx < v ->
+          nth idx (EnforceLagrange.l_div t) {| Enforce.d_num := []; Enforce.d_ex := [] |} =
+          {| Enforce.d_num := [((2 ^ Z.of_nat idx)%Z, fone O0)]; Enforce.d_ex := [] |}) ->
+         v < 64 ->
+         forall (c : list F) (x : F),
+         length c = S v ->
+         EnforceLagrange.lag_evaluate_and_combine O0 t c rr x =
+         Some
+           (rsum O0
+              (map
+                 (fun idx : nat =>
+                  fmul O0 (lag_num O0 v t rr c idx) (finv O0 (fsub O0 (cpow O0 x (2 ^ idx)) (fone O0)))) 
+                 (seq 0 v))) /\
+         EnforceLagrange.lag_boundary_evaluate_at O0 rr c lb x =
+         Some
+           (fmul O0 (fmul O0 (fsub O0 (nth 0 c (fzero O0)) (EnforceLagrange.lag_assertion_value O0 rr)) lb)
+              (finv O0 (fsub O0 x (fone O0)))).
+Proof. exact @verifier_lagrange_agrees. Qed.
+Print Assumptions C17_verifier_lagrange_agrees.
+
+(* the table with the Lagrange terms: if evaluate (hook = identity) returns gf over the ce domain (C17_table_row_spec /
+   C17_table_row_spec_single_segment: gf i = comp_def x_i), then evaluate with the hook of
+   evaluate_lagrange_kernel_constraints (`acc[step] += lag[step]`, lag = map hf by C17_lagrange_row_spec: hf i = lag_def x_i)
+   returns gf i + hf i at every index *)
+Theorem C17_table_with_lagrange :
+  forall (F : Type) (O0 : FOps F) (n ceb ldeb : nat) (offset : F) (rou : nat -> F) (num_main : nat)
+           (tmain : list F -> list F -> list F -> list F)
+           (taux : list F -> list F -> list F -> list F -> list F -> list F -> list F) (ppolys : list (list F))
+           (exemptions : nat) (tcoef : list F) (main_groups aux_groups : list BGroup) (rands : list F) 
+           (has_aux : bool) (lde_main lde_aux : list (list F)) (gf hf : nat -> F),
+         evaluate O0 n ceb ldeb offset rou num_main tmain taux ppolys exemptions tcoef main_groups aux_groups rands
+           has_aux lde_main lde_aux (fun (_ : nat) (v : F) => v) = Some (map gf (seq 0 (ce_size n ceb))) ->
+         evaluate O0 n ceb ldeb offset rou num_main tmain taux ppolys exemptions tcoef main_groups aux_groups rands
+           has_aux lde_main lde_aux (lagrange_acc_of O0 (map hf (seq 0 (ce_size n ceb)))) =
+         Some (map (fun i : nat => fadd O0 (gf i) (hf i)) (seq 0 (ce_size n ceb))).
+Proof. exact @evaluate_with_lagrange. Qed.
+Print Assumptions C17_table_with_lagrange.
+
 (* ---- non-vacuity: each theorem above instantiated in the 64-bit field with ALL hypotheses discharged
         (Proofs/CompositionExamples.v).  Instance A: trace length 2, ce blowup 2, a periodic column, an auxiliary column,
         a single-value group at step 0, a two-value sequence group with first step 1, an auxiliary group sharing the first
@@ -521,3 +613,8 @@ Example C17_composition_is_definition_nonvacuous :
     /\ (forall z, ~ In z (Stark.domain F64_ops (gtrace 1 rouB) 1) -> recombine F64_ops 1 (cp_evaluate_at F64_ops cols z) z
           = comp_def F64_ops 1 rouB (fun _ _ _ => []) (fun _ _ _ _ _ _ => []) [] 1 [] [] [] [] false [] [] z).
 Proof. exact composition_is_definition_instance. Qed.
+
+Example C17_lagrange_row_spec_nonvacuous :
+  lagrange_evaluate F64_ops 2 2 2 (e64 7) rouA 1 ldeLagA tLagA [e64 9] (e64 4)
+  = Some (map (fun i => lag_def F64_ops 2 rouA 1 LpA tLagA [e64 9] (e64 4) (ce_x F64_ops 2 2 (e64 7) rouA i)) (seq 0 (ce_size 2 2))).
+Proof. exact lagrange_evaluate_spec_instance. Qed.
